@@ -125,7 +125,6 @@ type Engine struct {
 	fails    []*Fail
 	asserts  map[string]*AssertStat
 	reach    map[string][]GuardSnap
-	obs      []ObsEntry
 	entered  map[*ssa.Function]int
 	pool     map[*FnInfo][][]Value
 	consts   map[*ssa.Const]Value
@@ -135,6 +134,9 @@ type Engine struct {
 	kfAccept map[string]bool
 	callStk  []string
 	g        *Guards
+	spec     JobSpec
+	conc     *Vector  // concrete mode: nondeterministic inputs come from this vector
+	clog     []string // concrete mode: observation log
 	loads    map[string]bool // globals loaded (footprint)
 	gstores  map[string]bool // globals stored outside init (footprint)
 }
